@@ -251,6 +251,7 @@ type SCase struct {
 	Fields  []Field  `json:"fields"`
 	Intern  []string `json:"intern"` // names mentioned before the type is declared (decoys and shuffled field names)
 	Methods int      `json:"methods"` // number of extra do-nothing methods
+	Late    int      `json:"late,omitempty"` // methods defined by a second Eval, after the instances exist (top-level form only)
 	NInst   int      `json:"ninst"`
 	UseAliasType bool `json:"use_alias_type"`
 	InFunc  bool     `json:"in_func"`
@@ -290,6 +291,7 @@ func genSCase(rt *rapid.T) *SCase {
 		c.Intern = rapid.Permutation(c.Intern).Draw(rt, "internorder")
 	}
 	c.Methods = rx.Pick(rt, "methods", 0, 0, 1, 5, 12, 13, 40)
+	c.Late = rx.Pick(rt, "late", 0, 0, 1, 3, 12, 13, 25, 40)
 	c.NInst = rx.Range(rt, "ninst", 2, 4)
 	n := rx.Range(rt, "steps", 1, 60)
 	for i := 0; i < n; i++ {
@@ -576,6 +578,39 @@ func checkS(c *SCase) *ev.Failure {
 			}
 		}
 		return mk("goatlang printed extra lines")
+	}
+	// methods that arrive after the instances exist (a later Eval on the same VM) are found on the old instances,
+	// and so are the old methods
+	if !c.InFunc && c.Late > 0 {
+		var sb, wb strings.Builder
+		sb.WriteString("import \"fmt\"\n")
+		for i := 0; i < c.Late; i++ {
+			fmt.Fprintf(&sb, "func (t *T) L%d() int { return %d }\n", i, 1000+i)
+		}
+		for vi := 0; vi <= c.NInst; vi++ {
+			name := fmt.Sprintf("x%d", vi)
+			if vi == c.NInst {
+				name = "al"
+			}
+			for i := 0; i < c.Late; i++ {
+				fmt.Fprintf(&sb, "fmt.Println(\"late\", %d, %d, %s.L%d())\n", vi, i, name, i)
+				fmt.Fprintf(&wb, "late %d %d %d\n", vi, i, 1000+i)
+			}
+			if c.Methods > 0 {
+				fmt.Fprintf(&sb, "fmt.Println(\"old\", %s.M%d(), %s.M0())\n", name, c.Methods-1, name)
+				fmt.Fprintf(&wb, "old %d 0\n", c.Methods-1)
+			}
+		}
+		fmt.Fprintf(&sb, "y := &T{}\nfmt.Println(\"fresh\", y.L%d())\n", c.Late-1)
+		fmt.Fprintf(&wb, "fresh %d\n", 1000+c.Late-1)
+		r2 := vm.Eval(nil, sb.String(), 50_000_000)
+		if r2.Failed() {
+			return mk(fmt.Sprintf("a second Eval defined %d more methods and called them on the existing instances: %s\n--- second script\n%s", c.Late, r2.ErrString(), sb.String()))
+		}
+		if r2.Stdout != wb.String() {
+			return mk(fmt.Sprintf("a second Eval defined %d more methods and called them on the existing instances: printed\n%s\nexpected\n%s\n--- second script\n%s", c.Late, r2.Stdout, wb.String(), sb.String()))
+		}
+		ev.R().Class("methods_added_after_instances")
 	}
 	// dynamic type of every field (host side, top-level variant only)
 	if !c.InFunc {
